@@ -10,6 +10,7 @@ import (
 	"bytes"
 	"encoding/hex"
 	"fmt"
+	"math"
 	"os"
 	"reflect"
 	"strconv"
@@ -89,6 +90,60 @@ func populate(m interface{}, b []byte) error {
 	return proto.UnmarshalOptions{AllowPartial: true, Merge: true}.Unmarshal(b, m.(proto.Message))
 }
 
+// render a message; gogo keeps extensions where the reflective (legacy) view does not look, so they are
+// fetched through gogo's own API (pbrender.ExtraFields hook, installed by Main for the gogo runtime)
+func render(m interface{}) string { return pbrender.Message(reflectOf(m)) }
+
+func gogoExtras(rm protoreflect.Message) (extra map[int]string) {
+	extra = map[int]string{}
+	defer func() { recover() }() // not an extendable message
+	gm, ok := protoimpl.X.ProtoMessageV1Of(rm.Interface()).(gogoproto.Message)
+	if !ok {
+		return
+	}
+	for num, desc := range gogoproto.RegisteredExtensions(gm) {
+		if !gogoproto.HasExtension(gm, desc) {
+			continue
+		}
+		v, err := gogoproto.GetExtension(gm, desc)
+		if err != nil {
+			extra[int(num)] = "?err"
+			continue
+		}
+		switch x := v.(type) {
+		case *int32:
+			extra[int(num)] = pbrender.Int(int64(*x))
+		case *int64:
+			extra[int(num)] = pbrender.Int(*x)
+		case *uint32:
+			extra[int(num)] = pbrender.Uint(uint64(*x))
+		case *uint64:
+			extra[int(num)] = pbrender.Uint(*x)
+		case *bool:
+			if *x {
+				extra[int(num)] = "n1"
+			} else {
+				extra[int(num)] = "n0"
+			}
+		case *string:
+			extra[int(num)] = pbrender.Bytes([]byte(*x))
+		case []byte:
+			extra[int(num)] = pbrender.Bytes(x)
+		case *float64:
+			extra[int(num)] = pbrender.Uint(math.Float64bits(*x))
+		case *float32:
+			extra[int(num)] = pbrender.Uint(uint64(math.Float32bits(*x)))
+		default:
+			if sub, ok := v.(gogoproto.Message); ok {
+				extra[int(num)] = render(sub)
+			} else {
+				extra[int(num)] = "?" + fmt.Sprintf("%T", v)
+			}
+		}
+	}
+	return
+}
+
 func guard(f func() string) (out string) {
 	defer func() {
 		if x := recover(); x != nil {
@@ -149,7 +204,7 @@ func doUM(full string, input, prefill []byte) string {
 		if err := m.(unmarshaler).Unmarshal(input); err != nil {
 			return "err"
 		}
-		return "ok " + pbrender.Message(reflectOf(m))
+		return "ok " + render(m)
 	})
 }
 
@@ -183,18 +238,18 @@ func doAL(full string, input []byte) string {
 		if err := m.(unmarshaler).Unmarshal(buf); err != nil {
 			return "err"
 		}
-		before := pbrender.Message(reflectOf(m))
+		before := render(m)
 		for i := range buf {
 			buf[i] ^= 0xFF
 		}
-		after := pbrender.Message(reflectOf(m))
+		after := render(m)
 		// recycle the buffer for another decode of something else
 		m2, _ := newMessage(full)
 		for i := range buf {
 			buf[i] = 0
 		}
 		_ = m2.(unmarshaler).Unmarshal(buf[:0])
-		after2 := pbrender.Message(reflectOf(m))
+		after2 := render(m)
 		if before == after && before == after2 {
 			return "ok same " + before
 		}
@@ -204,6 +259,9 @@ func doAL(full string, input []byte) string {
 
 // Main serves requests from stdin.
 func Main(rt string) {
+	if rt == "gogo" {
+		pbrender.ExtraFields = gogoExtras
+	}
 	runtimeName = rt
 	in := bufio.NewReaderSize(os.Stdin, 1<<20)
 	out := bufio.NewWriterSize(os.Stdout, 1<<20)
@@ -233,6 +291,7 @@ func Main(rt string) {
 				res = "driver-error unknown request"
 			}
 			fmt.Fprintln(out, res)
+			out.Flush() // one answer per request reaches the harness even if a later request kills the process
 		}
 		if err != nil {
 			return
